@@ -222,8 +222,7 @@ def precedence(chk, sf, dprog, cfg):
                 decl = mir.strip_generics(t.get("callee") or "")
                 if name.endswith("utils::maybe_index"):
                     return absint.some(absint.Sym("IDX")) if has_idx else absint.NONE
-                if name.endswith("Option::as_ref") and args and isinstance(args[0], absint.Sym) and args[0].name.endswith("discriminant"):
-                    return absint.some(("tuple", [absint.Sym("eq"), absint.Sym("EXPR")])) if has_disc else absint.NONE
+
                 if decl == "quote::to_tokens::ToTokens::to_tokens" or name.endswith("ToTokens::to_tokens"):
                     log.append(args[0])
                     return ("tuple", [])
@@ -233,7 +232,8 @@ def precedence(chk, sf, dprog, cfg):
                     return ("tuple", [])
                 return None
             try:
-                absint.run(b, 0, {1: absint.Sym("v"), 2: absint.Sym("i")}, call=h, prog=dprog)
+                disc = absint.some(("tuple", [absint.Sym("eq"), absint.Sym("EXPR")])) if has_disc else absint.NONE
+                absint.run(b, 0, {1: absint.Sym("v"), 2: absint.Sym("i")}, call=h, prog=dprog, symvals={"v.discriminant": disc})
                 table[(has_idx, has_disc)] = [getattr(x, "name", repr(x)) for x in log]
             except absint.Unrecognised as e:
                 ok = False
@@ -254,7 +254,7 @@ def precedence(chk, sf, dprog, cfg):
     if len(c) == 1:
         toks = " ".join(m["tokens"] for m in c[0][1]["body"]["macros"] if m["path"].endswith("quote"))
         okt = re.search(r"\. index \(# index as :: core :: primitive :: u8\)", toks) is not None
-        okt = okt and re.search(r"let index = utils :: variant_index \(v , i\)", c[0][1]["body"]["src"]) is not None
+        okt = okt and re.search(r"\bindex = utils :: variant_index \(", c[0][1]["body"]["src"]) is not None
     chk.expect(okt, "R3.3", "scale-info-derive:index-emitted-as-u8", "derive/src/lib.rs", "template contains `.index(#index as ::core::primitive::u8)` fed by variant_index(v, i): %s" % okt, cfg)
     # codec side
     c = sf.fn("codec_derive", "variant_index")
